@@ -82,7 +82,10 @@ string / integer / boolean values, status strings printable, a named top instanc
     read back has the same C03 view — the same libraries, cells, ports (order, direction, width,
     array-ness), instances (name, referenced cell and library, properties), nets (name, width, base
     index, each wire joined to the same port bits and instance pin bits in the same order), the same
-    top design and the same original names. -/
+    top design and the same original names.
+    NOT in `view03` (Spec.lean): the EDIF identifiers, the properties of anything but instances, the view
+    name, `cellType` and the other metadata.  (Identifiers and the view name do come back: the closed form
+    `edif_roundtrip_closed_form` / `readNetlist` and `view05` of Props/C05Denote.lean carry them.) -/
 theorem edif_roundtrip (n : CNetlist) (prog ver : Option Str) (t : CInst) (li di : Nat) (y mo d h mi s : Nat)
     (hwf : WFNet n prog ver t li di) (h0 : ScalarLower0 n) :
     ∃ e n', toSExp [y, mo, d, h, mi, s] n = .ok e ∧ ofSExp e = .ok n' ∧ view03 n' = view03 n :=
